@@ -18,7 +18,9 @@ REGISTRY = {
                                                       'optimize_isolated_asm_block(gate)', 'optimize_block(baseline')),
             # the acceptance test measures the candidate against the block built from original_instrs: that text must be the sub block
             ('contracts.c14', only('specification-keys,stack-hand-over,original_instrs'))],
-    'C09': ['contracts.c09', ('contracts.gates', only('optimize_asm_contract(gate)')), ('contracts.c14', only('rebuild_optimized_asm_block')), 'contracts.c14p'],
+    'C09': ['contracts.c09', ('contracts.gates', only('optimize_asm_contract(gate)', 'optimize_asm_from_log(gate)')),
+            # an emitted PUSH holds a word only if the folding kernels return words (their contracts, re-run from C03)
+            ('contracts.c03', only('evaluate_expression')), ('contracts.c14', only('rebuild_optimized_asm_block')), 'contracts.c14p'],
     'C10': [('contracts.gates', only('fault-containment', 'compare_asm_block_asm_format', 'optimize_asm_block_asm_format(gate)', 'optimize_asm_from_log')),
             'contracts.c10'],
     'C11': [('contracts.gates', only('optimize_asm_from_log', 'optimize_asm_block_asm_format(gate)', 'compare_asm_block_asm_format',
